@@ -204,6 +204,11 @@ def run_text(ctx, g, gflags, kind, engines, w, use_bytes):
             ctx.inconc('wall guard', case)
             continue
         if out[0] != 'ok':
+            if out[0] == 'exc' and not out[1].get('is_ui') and out[1].get('class') in ('AttributeError', 'TypeError', 'IndexError', 'KeyError', 'AssertionError'):
+                # not a rejection: computing positions broke the parse
+                ctx.judged([g, gflags, parser, lexer, w, use_bytes, 'exc'], True, ['kind:' + kind])
+                ctx.violation('parse-raises-internal-error:%s/%s' % (parser, lexer), case, {'exc': out[1]})
+                continue
             ctx.count('rejected(not judged)')
             continue
         family_dynamic = lexer.startswith('dynamic')
